@@ -231,6 +231,17 @@ func (m *evalModel) isFrameAnns(v ssa.Value) bool {
 	}
 	// the record handed to a transparent helper: a parameter that is the frame's record at every call site
 	for depth := 0; depth < 3; depth++ {
+		// a parameter captured by a closure (the receiver of an iterator constructor) is read through its cell
+		if ld, isLd := v.(*ssa.UnOp); isLd && ld.Op == token.MUL {
+			if cell := resolveCell(ld.X); cell != nil && cell != m.frameAnns {
+				stores := cellStores(cell)
+				if len(stores) == 1 {
+					if sp, isP := stores[0].(*ssa.Parameter); isP {
+						v = sp
+					}
+				}
+			}
+		}
 		p, ok := v.(*ssa.Parameter)
 		if !ok || curCtx == nil || p.Parent() == m.E || !curCtx.transparent(p.Parent()) {
 			return false
@@ -1432,7 +1443,20 @@ func (c *Ctx) yieldCallsOf(body *ssa.Function) []*ssa.Call {
 		return nil
 	}
 	var out []*ssa.Call
-	for _, src := range append(traceSourcesDeep(call.Common().Value), call.Common().Value) {
+	srcs := append(traceSourcesDeep(call.Common().Value), call.Common().Value)
+	for _, src := range append([]ssa.Value(nil), srcs...) {
+		// the iterator is the result of a package constructor: the closure(s) it returns
+		if cc, ok := src.(*ssa.Call); ok {
+			if h := cc.Call.StaticCallee(); h != nil && c.P.InPkg(h) {
+				core.EachInstr(h, func(i ssa.Instruction) {
+					if ret, ok := i.(*ssa.Return); ok && len(ret.Results) == 1 {
+						srcs = append(srcs, append(traceSources(ret.Results[0]), ret.Results[0])...)
+					}
+				})
+			}
+		}
+	}
+	for _, src := range srcs {
 		mc, ok := src.(*ssa.MakeClosure)
 		if !ok {
 			continue
